@@ -39,6 +39,14 @@ func genSearchCase(o HistOpts, nq int, withPrefilter bool) *rapid.Generator[Sear
 				qp.Target = &tp
 			}
 			qs[i] = drawQuery(t, qp, withPrefilter)
+			if o.MinMaxHeavy && qs[i].Q != nil {
+				// prefilter is the subject: always present, bloom/regex mostly absent
+				e := drawPrefilterTree(t, qp.NumKeys, qp.Nums, qp.Parts, 2)
+				qs[i].Q.Prefilter = &bs.QueryPrefilter{Expression: &e}
+				if chance(t, "prefonly", 75) {
+					qs[i].Q.Bloom, qs[i].Q.Regex = nil, nil
+				}
+			}
 		}
 		c := SearchCase{Hist: h, Queries: qs}
 		c.MetaMode = rapid.SampledFrom(metaModes).Draw(t, "metamode")
